@@ -29,7 +29,7 @@ CONFIGS = {
 }
 DURS_Q = [1, 50, 700, 1500]
 DURS_T = [1, 5, 50, 700, 1500, 4000]
-KINDS = ["A-stopstart", "B-stopstart", "A-stop", "B-stop", "A-crash", "B-crash", "A-crashstop", "B-crashstop", "loss", "dup", "reorder"]
+KINDS = ["A-stopstart", "A-stopstart-lossy", "B-stopstart", "A-stop", "B-stop", "A-crash", "B-crash", "A-crashstop", "B-crashstop", "loss", "dup", "reorder"]
 
 
 def bounds(tier):
@@ -41,7 +41,7 @@ def cases(tier, seed):
     cfgs = ["t1", "inf"] if tier == "quick" else ["t1", "t2", "t3", "inf"]
     for c in cfgs:
         for k in KINDS:
-            if c == "inf" and k in ("loss", "dup", "reorder", "A-crashstop", "B-crashstop"):
+            if c == "inf" and k in ("loss", "dup", "reorder", "A-crashstop", "B-crashstop", "A-stopstart-lossy"):
                 continue  # with infinite TTLs a silent death is, by design, never noticed
             if tier == "quick" and c == "inf" and k in ("A-stop", "B-stop"):
                 continue
@@ -169,7 +169,16 @@ def h04(E, M, case):
         d = E.pick("dur%d" % di, case["durs"])
         te = ts + d
         who = kind[0] if kind[0] in "AB" and kind[1] == "-" else None
-        if kind.endswith("stopstart"):
+        if kind.endswith("stopstart-lossy"):
+            # graceful stop whose farewell datagrams are lost (loss window of 6 ms at the stop)
+
+            def lossy_stop(w=who, a=ts):
+                net.window = ("loss", a, a + 6)
+                st[w].stop()
+
+            sc.at(ts, lossy_stop, "d%ds" % di, joinable=False)
+            sc.at(te, lambda w=who: st[w].start(), "d%de" % di, joinable=False)
+        elif kind.endswith("stopstart"):
             sc.at(ts, lambda w=who: st[w].stop(), "d%ds" % di, joinable=False)
             sc.at(te, lambda w=who: st[w].start(), "d%de" % di, joinable=False)
         elif kind.endswith("-stop"):
